@@ -133,6 +133,33 @@ def _check_state_algebra(a, b):
   return None
 
 
+def _check_pure_dict(a):
+  """to_pure_dict / replace_by_pure_dict are lossless: overlaying ANY subset of the leaves changes those leaves and nothing else"""
+  import itertools as _it
+  from flax import nnx
+  fa = _flat(a)
+  if not fa:
+    return None
+  if dict(_flat(nnx.to_pure_dict(nnx.State(a)))) != fa:
+    return 'to_pure_dict(State(a)) differs from a'
+  paths = sorted(fa, key=repr)
+  for r in range(1, len(paths) + 1):
+    for sub in _it.combinations(paths, r):
+      st = nnx.State(a)
+      pure = {}
+      for p in sub:
+        node = pure
+        for k in p[:-1]:
+          node = node.setdefault(k, {})
+        node[p[-1]] = ('new', p)
+      nnx.replace_by_pure_dict(st, pure)
+      got = dict(nnx.to_flat_state(st))
+      want = {p: (('new', p) if p in sub else v) for p, v in fa.items()}
+      if got != want:
+        return f'replace_by_pure_dict with a pure dict covering {list(sub)}: state becomes {got}, expected {want}'
+  return None
+
+
 def run(tier, seed):
   depth = 2 if tier == 'quick' else 3
   trees = [t for t in _trees(depth) if isinstance(t, dict)]
@@ -160,7 +187,16 @@ def run(tier, seed):
     # State algebra on pairs of small nested states, including a sub-state on one side where the other has a leaf
     pool = [{'a': 1}, {'a': 1, 'b': 2}, {'a': {'x': 1, 'y': 2}, 'b': 3}, {'a': {'x': 5}}, {'a': 7, 'c': {'z': 1}}, {'a': {'x': {'deep': 1, 'other': 2}}, 'out': 3},
             {'a': {'x': 9}}, {'norm': {'scale': {'gamma': 1, 'beta': 2}}, 'out': 3}, {'norm': {'scale': 5}}, {}]
-    for a, b in itertools.product(pool, repeat=2):
+    for a in pool:
+      cases += 1
+      try:
+        msg = _check_pure_dict(a)
+      except Exception as e:  # noqa
+        msg = f'raised {e!r}'
+      if msg:
+        fails.append(dict(inputs=dict(a=repr(a), api='nnx to_pure_dict / replace_by_pure_dict'), observed=msg[:400], violated='pure-dict-lossless'))
+        break
+    for a, b in (itertools.product(pool, repeat=2) if not fails else ()):
       cases += 1
       try:
         msg = _check_state_algebra(a, b)
@@ -169,11 +205,13 @@ def run(tier, seed):
       if msg:
         fails.append(dict(inputs=dict(a=repr(a), b=repr(b), api='nnx.State diff/merge'), observed=msg[:400], violated='state-algebra'))
         break
-  return dict(name=NAME, cases=cases, distinct=len(trees), bound=f'all nested dicts of depth <= {depth}, <= 2 keys/level from {{a,b,c}}, leaves {{0,(),"x",{{}}}}; State diff/merge on 10 x 10 small nested states',
+  return dict(name=NAME, cases=cases, distinct=len(trees), bound=f'all nested dicts of depth <= {depth}, <= 2 keys/level from {{a,b,c}}, leaves {{0,(),"x",{{}}}}; State diff/merge on 10 x 10 small nested states; replace_by_pure_dict with every subset of leaves',
               exhaustive=True, failures=fails[:2], error=None)
 
 
 def replay(inputs):
+  if inputs.get('api') == 'nnx to_pure_dict / replace_by_pure_dict':
+    return _check_pure_dict(eval(inputs['a'])) is None
   if inputs.get('api') == 'nnx.State diff/merge':
     return _check_state_algebra(eval(inputs['a']), eval(inputs['b'])) is None
   t = eval(inputs['tree'])
